@@ -1,6 +1,7 @@
 package reputil
 
 import (
+	"os"
 	"github.com/sergeii/swat4master/verifharness/internal/world"
 	"sort"
 	"context"
@@ -30,12 +31,14 @@ import (
 // the wire) and the dump, as RunHistory.
 func RunWireHistory(args []string) []string {
 	var out []string
-	for try := 0; try < 10; try++ {
+	// a source port or the listen port may be taken for a moment by another check running on the same machine (the source
+	// ports of a history are part of its input: they are in the replies): try again, at uneven intervals, for a while
+	for try := 0; try < 30; try++ {
 		out = runWireHistoryOnce(args)
 		if len(out) == 0 || !strings.HasPrefix(out[0], "infra") {
 			return out
 		}
-		time.Sleep(200 * time.Millisecond)
+		time.Sleep(time.Duration(100+137*(try%7)+(os.Getpid()%97)) * time.Millisecond)
 	}
 	return out
 }
